@@ -24,13 +24,17 @@ import (
 	"hash/fnv"
 	"io"
 	"math"
+	"os"
 	"runtime"
 	"strings"
 	"sync"
 
+	"github.com/bytom/bytom/blockchain/txbuilder"
 	"github.com/bytom/bytom/consensus"
+	"github.com/bytom/bytom/errors"
 	"github.com/bytom/bytom/protocol/bc"
 	"github.com/bytom/bytom/protocol/bc/types"
+	"verifharness/chainlib"
 	. "verifharness/hlib"
 )
 
@@ -1094,6 +1098,69 @@ func runC04(c *Ctx) error {
 		}
 		st.Count("interleaved-stage")
 		st.Distribution["interleaved-jobs"] = len(jobs)
+	}
+
+	// ---- recorded size through the node's own finalisation step: txbuilder.FinalizeTx is where a
+	// constructed (built, text-decoded, then signed) transaction gets the size the validator charges
+	// storage gas for.  Whatever stale size the value carried in, after FinalizeTx got as far as
+	// validation the recorded size is the length of the transaction's encoding.  (Runs last:
+	// chainlib.Init sets the global consensus parameters.)
+	{
+		dir, err := os.MkdirTemp("", "c04fin")
+		if err != nil {
+			return err
+		}
+		defer os.RemoveAll(dir)
+		o := chainlib.DefaultOptions()
+		o.NKeys = 1
+		chainlib.Init(o)
+		node, err := chainlib.NewNode(dir)
+		if err != nil {
+			return fmt.Errorf("chainlib.NewNode: %v", err)
+		}
+		nF := c.N(150, 1000)
+		checked := 0
+		for i := 0; i < nF; i++ {
+			td := g.tx(true)
+			enc, err := td.MarshalText()
+			if err != nil {
+				continue
+			}
+			real := uint64(len(enc) / 2)
+			stale := []uint64{0, 1, real, real + 7, real / 2, 1 << 40}[c.Rng.Intn(6)]
+			tx := types.NewTx(*td)
+			tx.TxData.SerializedSize = stale
+			tx.Tx.SerializedSize = stale
+			var ferr error
+			panicked := false
+			func() {
+				defer func() {
+					if recover() != nil {
+						panicked = true
+					}
+				}()
+				ferr = txbuilder.FinalizeTx(nil, node.Chain, tx)
+			}()
+			if panicked {
+				continue
+			}
+			switch errors.Root(ferr) {
+			case txbuilder.ErrExtTxFee, txbuilder.ErrNoTxSighashAttempt, txbuilder.ErrTxSignatureFailure, txbuilder.ErrNoTxSighashCommitment:
+				st.Count("finalize.returned-before-size")
+				continue // returned before the size step
+			}
+			checked++
+			if tx.TxData.SerializedSize != real || tx.Tx.SerializedSize != real {
+				st.Fail(fmt.Sprintf("class=finalize-size: after txbuilder.FinalizeTx a transaction that came in with recorded size %d records %d / %d but its encoding has %d bytes", stale, tx.TxData.SerializedSize, tx.Tx.SerializedSize, real),
+					map[string]interface{}{"kind": "finalize", "value": cTx(td, false), "stale": stale})
+				checked = nF
+				break
+			}
+		}
+		st.Distribution["finalize.checked"] = checked
+		if checked < nF/4 {
+			return fmt.Errorf("degenerate finalize stage: %d of %d reached the size step", checked, nF)
+		}
 	}
 
 	d := st.Distribution
